@@ -735,7 +735,12 @@ class ExprMixin:
                     outs.append((s2, self.slice_(b, lo, hi, s2)))
             else:
                 for s2, i in self.ev(e.slice, s, cx):
-                    outs.extend(self.index(b, i, s2, cx))
+                    for s3, r in self.index(b, i, s2, cx):
+                        # a callable taken out of a table stored in an attribute (self._method_names[name]): calls of it are described by the
+                        # assumed contract verif.closure.<attribute>
+                        if isinstance(r, VFuncRef) and isinstance(e.value, ast.Attribute) and not getattr(r, "field", None):
+                            r.field = e.value.attr
+                        outs.append((s3, r))
         return outs
 
     def slice_(self, b, lo, hi, st):
